@@ -50,10 +50,9 @@ Definition attr_toks (a : attribute) : value := VToks (i_toks (at_info a)).
 Definition display_path (p : path) : string :=
   (if p_leading p then "::" else "") ++ join "::" (map fst (p_segs p)).
 
-(** the name an attribute is selected by: its path as darling prints paths; a leading `::` keeps
-    the path distinct from every declared name (declared names never carry one) *)
-Definition attr_name (a : attribute) : string :=
-  (if p_leading (at_path a) then "::" else "") ++ path_to_string (at_path a).
+(** the name an attribute is selected by: its path as darling prints paths (a leading `::` is part
+    of the name: [#[::a]] is selected by a declared [::a] and by nothing else) *)
+Definition attr_name (a : attribute) : string := path_to_string (at_path a).
 
 Definition style_name (s : fstyle) : string :=
   match s with StNamed => "Struct" | StTuple => "Tuple" | StUnit => "Unit" end.
